@@ -99,7 +99,9 @@ FairSpec == Spec /\ WF_vars(Next)
 RECURSIVE Close(_, _)
 Close(D, k) == IF k > N THEN D
                ELSE Close(TLCEval([a \in Nodes, b \in Nodes |-> Min(D[a, b], Max(D[a, k], D[k, b]))]), k + 1)
-Closure == Close([a \in Nodes, b \in Nodes |-> IF a = b THEN 0 ELSE Wt(a, b)], 1)
+WtOf(Wf, a, b) == IF a < b THEN Wf[<<a, b>>] ELSE Wf[<<b, a>>]
+ClosureW(Wf) == Close([a \in Nodes, b \in Nodes |-> IF a = b THEN 0 ELSE WtOf(Wf, a, b)], 1)
+Closure == ClosureW(W)
 
 RECURSIVE Root(_, _)
 Root(i, f) == IF f = 0 THEN NIL ELSE IF pred[i] = NIL THEN i ELSE Root(pred[i], f - 1)
@@ -110,12 +112,14 @@ RECURSIVE Reach(_, _, _)
 Reach(T, S, k) == IF k = 0 THEN S
                   ELSE Reach(T, S \cup {v \in Labeled : \E e \in T : (e[1] \in S /\ e[2] = v) \/ (e[2] \in S /\ e[1] = v)}, k - 1)
 SpanTrees == {T \in FSE!kSubset(NL - 1, LPairs) : Reach(T, {1}, NL) = Labeled}
-RECURSIVE SumW(_)
-SumW(T) == IF T = {} THEN 0 ELSE LET e == CHOOSE e \in T : TRUE IN W[e] + SumW(T \ {e})
-MinTrees == LET ST == TLCEval(SpanTrees)
-                SW == TLCEval([T \in ST |-> SumW(T)])
-                mw == CHOOSE m \in {SW[T] : T \in ST} : \A T \in ST : m <= SW[T]
-            IN {T \in ST : SW[T] = mw}
+RECURSIVE SumWf(_, _)
+SumWf(Wf, T) == IF T = {} THEN 0 ELSE LET e == CHOOSE e \in T : TRUE IN Wf[e] + SumWf(Wf, T \ {e})
+SumW(T) == SumWf(W, T)
+MinTreesW(Wf) == LET ST == TLCEval(SpanTrees)
+                     SW == TLCEval([T \in ST |-> SumWf(Wf, T)])
+                     mw == CHOOSE m \in {SW[T] : T \in ST} : \A T \in ST : m <= SW[T]
+                 IN {T \in ST : SW[T] = mw}
+MinTrees == MinTreesW(W)
 CrossEnds(T) == UNION {{e[1], e[2]} : e \in {e \in T : L[e[1]] # L[e[2]]}}
 DistinctL == \A e, f \in LPairs : e # f => W[e] # W[f]
 Distinct == \A e, f \in Pairs : e # f => W[e] # W[f]
